@@ -28,7 +28,9 @@ VARIABLES stage, k, cur
 vars == <<stage, k, cur>>
 
 Tables == [kinds |-> Kinds, cexprs |-> CExprs, concrete |-> Concrete,
-           argtys |-> ArgTys, bundletys |-> BundleTys, clausetys |-> ClauseTys]
+           argtys |-> ArgTys, bundletys |-> BundleTys, clausetys |-> ClauseTys,
+           vclasses |-> [int |-> VClasses(I32), fp |-> VClasses(F32), ptr |-> VClasses(TyPtr(I32)), ptras |-> VClasses(TyPtrAS(I32, 1)),
+                         vec |-> VClasses(TyVec(2, I32)), svec |-> VClasses(TySVec(2, I32)), agg |-> VClasses(PairTy)]]
 
 Init == /\ stage = 0 /\ k = 0 /\ cur = <<>>
         /\ JsonSerialize("schema.json", Tables)
